@@ -130,6 +130,17 @@ func markerSession(r *mrand.Rand) (mSession, []string) {
 		Groups: []string{mk("gr1"), mk("gr2")},
 		Custom: []mAttribute{{Friendly: mk("cfn"), Name: mk("cnm"), Format: "urn:oasis:names:tc:SAML:2.0:attrname-format:basic",
 			Values: []mAttrValue{{Type: "xs:string", Value: mk("cv1")}, {Type: "xs:string", Value: mk("cv2")}}}}}
+	// control characters in every session string that lands in an XML ATTRIBUTE of the assertion: the
+	// serialisation before encryption must write them as character references
+	ctl := func() string { return pick(r, []string{"", "", "\rx", "\r\nx", "\tx", "\nx", "x\r"}) }
+	s.Index += ctl()
+	s.NameIDFormat = "urn:x" + ctl()
+	s.Custom[0].Friendly += ctl()
+	s.Custom[0].Name += ctl()
+	s.Custom[0].Format += ctl()
+	s.Custom[0].Values[0].Type += ctl()
+	s.NameID += ctl() // and, for comparison, in a text node
+	s.Custom[0].Values[1].Value += ctl()
 	return s, markers
 }
 
@@ -190,7 +201,7 @@ func c08One(c *Ctx, g, gsteps *Group, kds []mKeyDesc, layout string, idx int) {
 			problems = append(problems, "emitted form cannot be read back: "+res.form.Err.Error())
 		} else {
 			resp := res.form.Resp
-			obs = fmt.Sprintf("(O6Form %s %s %s)", emitStr(res.form.Action), resp.term(), emitStr(res.form.Relay))
+			obs = fmt.Sprintf("(O6Form %s %s %s)", emitStr(registeredAction(in.md, res.form.Action)), resp.term(), emitStr(res.form.Relay))
 			obsJSON["response_xml"] = string(res.form.XML)
 			if resp.Enc != nil {
 				key["emitted"] = "encrypted"
